@@ -4,6 +4,9 @@
 package vk
 
 import (
+	"runtime"
+	"runtime/pprof"
+	"time"
 	"fmt"
 	"os"
 	"runtime/debug"
@@ -43,6 +46,18 @@ func Main(p vbase.Params) int {
 		return 3
 	}
 	debug.SetGCPercent(200)
+	if path := os.Getenv("VERIF_HEAPPROF"); path != "" {
+		go func() {
+			for {
+				time.Sleep(20 * time.Second)
+				if f, err := os.Create(path); err == nil {
+					runtime.GC()
+					_ = pprof.WriteHeapProfile(f)
+					f.Close()
+				}
+			}
+		}()
+	}
 	r := vbase.NewResult(p)
 	c(p, r)
 	if err := r.Write(p.Out); err != nil {
